@@ -156,7 +156,7 @@ func init() {
 			"out-of-range system-common arguments only need a well-formed message (statement)",
 			"loopback is observed through drivers/testdrv + midi.ListenTo with all listen options enabled",
 		},
-		Require: []string{"ctor_points", "loopback_deliveries", "accessor_calls", "out_of_range_points", "concurrent_ctor_points", "nil_pattern_calls", "conversations_with_replies_to_replies", "loopback_repeated_deliveries", "several_loopback_sessions", "appends_to_returned_messages", "kept_deliveries_rechecked"},
+		Require: []string{"ctor_points", "loopback_deliveries", "accessor_calls", "out_of_range_points", "concurrent_ctor_points", "nil_pattern_calls", "conversations_with_replies_to_replies", "loopback_repeated_deliveries", "several_loopback_sessions", "appends_to_returned_messages", "kept_deliveries_rechecked", "loopback_sends_to_a_listener_without_options"},
 		Run:     runC07,
 	})
 }
@@ -193,8 +193,20 @@ func runC07(c *mon.Ctx) {
 	}
 
 	lp := newLoop(midi.UseSysEx(), midi.UseTimeCode(), midi.UseActiveSense())
+	// a listener that asked for nothing special (no sysex, no timing clock, no active sensing): none of these options
+	// concerns a channel voice or system common message, they all arrive just the same
+	lpPlain := newLoop()
+	plainN := 0
 
 	checkLoop := func(name string, m midi.Message, args any) {
+		if plainN++; (m[0] >= 0xF0 || plainN%16 == 0) && m[0] != 0xFE && m[0] != 0xF8 && m[0] != 0xF0 && m[0] != 0xF7 {
+			got := lpPlain.roundTrip(m)
+			c.Count("loopback_sends_to_a_listener_without_options", 1)
+			if len(got) != 1 || !bytes.Equal(got[0], m) {
+				c.Violation("loopback-plain-listener:"+name, fmt.Sprintf("%s%v sent through the loopback port to a listener without listen options arrived as %v", name, args, mon.HexList(toBytes(got))), args, mon.Hex(m), mon.HexList(toBytes(got)))
+				return
+			}
+		}
 		got := lp.roundTrip(m)
 		c.Count("loopback_sends", 1)
 		if lp.changed != "" {
